@@ -136,10 +136,46 @@ class CacheBlocks(SubCheck):
                 'post': draw(st.lists(block_ops(threshold, fan), max_size=3)),
                 # an asynchronous exception (Ctrl-C) delivered just as the ROLLBACK statement of the aborting block returns
                 'interrupt_after_rollback': draw(st.integers(0, 4)) == 0,
+                # before the judged block an unrelated write on the same object fails: with a plain database error, or with one
+                # after which SQLite has rolled the transaction back by itself (database full).  It stores nothing, and the
+                # object must be as transactional afterwards as before.
+                'prior_fault': draw(st.sampled_from([None, None, None, 'error', 'autorollback'])),
                 'tree2': draw(tree_strategy(threshold, fan)),
             }
 
         return case()
+
+    def failed_write(self, env, cache, mode):
+        import sqlite3 as _sq
+
+        from ..conc import get_seams
+        from ..seams import Controller
+
+        seams = env.cache['seams'] if 'seams' in env.cache else get_seams(env)
+
+        class FailOnce(Controller):
+            fired = False
+
+            def event(self_, kind, label, con=None):
+                if kind == 'sql' and not self_.fired and label.lstrip().upper().startswith(('INSERT', 'UPDATE')) and con is not None and con.in_transaction:
+                    self_.fired = True
+                    if mode == 'autorollback':
+                        _sq.Connection.execute(con, 'ROLLBACK')
+                        raise _sq.OperationalError('database or disk is full')
+                    raise _sq.OperationalError('disk I/O error')
+
+        ctl = FailOnce()
+        seams.ctl = ctl
+        try:
+            cache.set('sacrificed', 'tiny')  # (inline: no value file is involved)
+        except _sq.OperationalError:
+            pass
+        finally:
+            seams.ctl = Controller()
+        if not ctl.fired:
+            raise HarnessError('the failing write was not reached')
+        if 'sacrificed' in cache:  # (membership does not touch the hit/miss statistics)
+            raise Violation('C06/failed-write-stored', 'a set() whose row write raised (%s) left its item behind' % mode)
 
     def open(self, path, case):
         import diskcache
@@ -160,6 +196,8 @@ class CacheBlocks(SubCheck):
             else:
                 r = Runner(cache, model, clock, cfg, pid='C06')
             r.run(case['pre'])
+            if case.get('prior_fault'):
+                self.failed_write(env, cache, case['prior_fault'])
             saved = copy.deepcopy(model)
             saved_hits = (model.hits, model.misses)
             aborted = False
@@ -262,7 +300,7 @@ class CacheBlocks(SubCheck):
                         raise Violation('C06/abort-not-restored/second-block/' + v.signature.split('/', 1)[1], 'a later block on the same object raised, but its effects stayed:\n' + v.detail)
                     raise
             nontrivial = aborted and state['wrote'] >= 1
-            classes = ['aborted' if aborted else 'committed'] + sorted(r.classes)
+            classes = ['aborted' if aborted else 'committed'] + sorted(r.classes) + (['after-failed-write=' + case['prior_fault']] if case.get('prior_fault') else [])
             return {'nontrivial': nontrivial, 'classes': classes}
         finally:
             cache.close()
@@ -450,7 +488,7 @@ def conc_case(draw):
     n = draw(st.integers(2, 3))
     block = [draw(c05.op_strategy(0, i)) for i in range(draw(st.integers(1, 4)))]
     # (closing the connection that holds the open transaction is misuse, not a client of the property)
-    block = [op for op in block if op[0] not in ('list', 'close', 'open')] or [('set', 'x', ('s', 'c0.0'))]
+    block = [op for op in block if op[0] not in ('list', 'close', 'open', 'iterstart', 'iterend')] or [('set', 'x', ('s', 'c0.0'))]
     progs = [[('block', tuple(block), draw(st.booleans()))]]
     for c in range(1, n):
         progs.append([draw(c05.op_strategy(c, i)) for i in range(draw(st.integers(1, 3)))])
@@ -578,7 +616,7 @@ class FanoutConcurrentBlocks(ConcurrentBlocks):
             base = draw(conc_case())
             # a second block client
             block2 = [draw(c05.op_strategy(1, i)) for i in range(draw(st.integers(1, 3)))]
-            block2 = [op for op in block2 if op[0] not in ('list', 'close', 'open')] or [('set', 'y', ('s', 'c1.0'))]
+            block2 = [op for op in block2 if op[0] not in ('list', 'close', 'open', 'iterstart', 'iterend')] or [('set', 'y', ('s', 'c1.0'))]
             progs = list(base['progs'])
             progs[1] = [('block', tuple(block2), draw(st.booleans()))]
             if len(progs) < 3:
